@@ -124,7 +124,7 @@ def mergeT1 (t : Tbl) (sel : List Nat) (hold : Bool) : Tbl :=
   let gone := chosen.map (·.id)
   { t with parts := t.parts.filter (fun p => !gone.contains p.id) ++ [⟨t.curPartID + 1, chosen.flatMap (·.batches), false⟩],
            curPartID := t.curPartID + 1, epoch := t.epoch + 1,
-           held := if hold then t.held ++ [t.ids] else t.held,
+           held := if hold then t.held ++ [(t.parts.filter (fun p => !p.mem)).map (·.id)] else t.held,
            zombies := t.zombies ++ gone }
 
 theorem opSteps_merge (t : Tbl) (sel : List Nat) (hold : Bool) :
